@@ -261,6 +261,20 @@ def build_enum(spec):
     return PPEnumFieldType(vals)
 
 
+def decode_value(v):
+    """values of a description as the caller has them: {"__pairs__": [[k, v], ...]} is a dict whose keys need not
+    be strings (JSON cannot hold those), {"__tuple__": [...]} a tuple"""
+    if isinstance(v, dict):
+        if set(v) == {"__pairs__"}:
+            return {decode_value(k): decode_value(x) for k, x in v["__pairs__"]}
+        if set(v) == {"__tuple__"}:
+            return tuple(decode_value(x) for x in v["__tuple__"])
+        return {k: decode_value(x) for k, x in v.items()}
+    if isinstance(v, list):
+        return [decode_value(x) for x in v]
+    return v
+
+
 class Built:
     """a printable object together with what is needed to render it"""
     __slots__ = ("kind", "obj", "spec", "records")
@@ -399,7 +413,7 @@ def build_object(spec, enums):
             t = tcls(recs, header=spec.get("header"), footer=spec.get("footer"), fmt_obj=t.fmt)
         return Built(k, t, spec, recs)
     if k == "ppwrap":
-        return Built(k, akppobj.PPWrap(spec["value"]), spec)
+        return Built(k, akppobj.PPWrap(decode_value(spec["value"])), spec)
     if k == "recfmt":
         recs = _records(spec)
         kw = {}
@@ -467,7 +481,7 @@ def start_rendering(built, conf, mode):
             palette = pcls
     k = built.kind
     if k == "pp":
-        r.res = built.obj(built.spec["value"], palette=palette, no_color=no_color, colors_conf=colors_conf)
+        r.res = built.obj(decode_value(built.spec["value"]), palette=palette, no_color=no_color, colors_conf=colors_conf)
     elif k in ("table", "ghist", "userbox", "usernote"):
         r.res = built.obj.ch_text(palette=palette, no_color=no_color, colors_conf=colors_conf)
     elif k == "recfmt":
